@@ -58,7 +58,22 @@ func buildShared(seed int64, batch int) *c20Shared {
 		s.sigs = append(s.sigs, oracle.DERWriteSig(r0, s0))
 		s.ssigs = append(s.ssigs, oracle.BIP340Sign(d, rng.Bytes(32), dig))
 	}
-	s.dsts = [][]byte{[]byte("verif-c20"), bytes.Repeat([]byte{'a'}, 255), bytes.Repeat([]byte{'b'}, 256), append(bytes.Repeat([]byte{'c'}, 300), rng.Bytes(8)...), append(bytes.Repeat([]byte{'d'}, 1000), rng.Bytes(8)...)}
+	// the tags are adjacent sub-slices of ONE blob, each with capacity running into the next
+	// tag (what `blob[a:b]` gives a caller): a callee appending to its tag argument writes
+	// into the neighbouring tag, which other goroutines are reading
+	{
+		parts := [][]byte{[]byte("verif-c20"), bytes.Repeat([]byte{'a'}, 255), []byte("another-short-tag"), bytes.Repeat([]byte{'b'}, 256), append(bytes.Repeat([]byte{'c'}, 300), rng.Bytes(8)...), []byte("QUUX-V01-CS02-with-secp256k1_XMD:SHA-256_SSWU_RO_"), append(bytes.Repeat([]byte{'d'}, 1000), rng.Bytes(8)...)}
+		var blob []byte
+		for _, p := range parts {
+			blob = append(blob, p...)
+		}
+		blob = append(blob, make([]byte, 64)...)
+		off := 0
+		for _, p := range parts {
+			s.dsts = append(s.dsts, blob[off:off+len(p)])
+			off += len(p)
+		}
+	}
 	s.opts = []*secec.ECDSAOptions{{}, {RejectMalleable: true}, {Encoding: secec.EncodingCompact}, {Hash: crypto.SHA256, SelfVerify: true}}
 	pool := knownPointPool(seed, 3)
 	for i := 0; i < 4; i++ {
